@@ -245,6 +245,12 @@ func c19Registers(c *run.Ctx, idx uint64) {
 	}
 	g := generate.Generator{}
 	g.SetDestination(d)
+	if r.Bool() {
+		// the Generator's path-data transform is configured: gradient geometry is
+		// given in viewBox coordinates and must not be affected
+		g.SetTransform(generate.Scale(2, -3), generate.Translate(5, 6))
+		c.Count("generator_with_path_transform", 1)
+	}
 	var err error
 	desc := func() map[string]interface{} {
 		dd := q.desc()
@@ -415,6 +421,9 @@ func c19Geometry(c *run.Ctx, idx uint64) {
 		d.SetCSel(uint8((base - 1 - r.Clone().Intn(6)) & 63))
 		g := generate.Generator{}
 		g.SetDestination(d)
+		if idx%2 == 1 {
+			g.SetTransform(generate.Scale(2, -3), generate.Translate(5, 6)) // for path data only
+		}
 		err := q.do(&g)
 		dst.StartPath(0, vb.MinX, vb.MinY)
 		dst.AbsLineTo(vb.MaxX, vb.MinY)
